@@ -27,6 +27,9 @@ type c12Spec struct {
 	world    func(jsr bool) *c12World
 	servers  [][]int // request indices per serving thread
 	mutators [][]int // mutation indices per mutating thread
+	// untouched lists the requests that address a service and route no mutation of the scenario
+	// changes: they must be answered as if no change were happening (as on the initial world)
+	untouched []int
 }
 
 func routeTo(id string) restful.RouteFunction {
@@ -58,27 +61,37 @@ func c12Container(jsr bool) *restful.Container {
 }
 
 var c12Specs = []c12Spec{
-	{name: "add", servers: [][]int{{0, 1}}, mutators: [][]int{{0}}, world: func(jsr bool) *c12World {
+	{name: "add", untouched: []int{0}, servers: [][]int{{0, 1}}, mutators: [][]int{{0}}, world: func(jsr bool) *c12World {
 		c := c12Container(jsr)
 		c.Add(newWS("/a", true, "/x"))
 		b := newWS("/b", true, "/x")
 		return &c12World{c: c, muts: []func(){func() { c.Add(b) }}, reqs: []h.Req{get("a", "x"), get("b", "x")}}
 	}},
-	{name: "remove", servers: [][]int{{0, 1}}, mutators: [][]int{{0}}, world: func(jsr bool) *c12World {
+	{name: "remove", untouched: []int{0}, servers: [][]int{{0, 1}}, mutators: [][]int{{0}}, world: func(jsr bool) *c12World {
 		c := c12Container(jsr)
 		c.Add(newWS("/a", true, "/x"))
 		b := newWS("/b", true, "/x")
 		c.Add(b)
 		return &c12World{c: c, muts: []func(){func() { c.Remove(b) }}, reqs: []h.Req{get("a", "x"), get("b", "x")}}
 	}},
-	{name: "route", servers: [][]int{{0, 1}}, mutators: [][]int{{0}}, world: func(jsr bool) *c12World {
+	{name: "remove-beside-root", untouched: []int{0, 1}, servers: [][]int{{0, 1, 2}}, mutators: [][]int{{0}}, world: func(jsr bool) *c12World {
+		// a service on the root path that is neither first nor last; one of the others goes away
+		c := c12Container(jsr)
+		c.Add(newWS("/a", true, "/x"))
+		c.Add(newWS("/", true, "/x"))
+		c.Add(newWS("/b", true, "/x"))
+		d := newWS("/d", true, "/x")
+		c.Add(d)
+		return &c12World{c: c, muts: []func(){func() { c.Remove(d) }}, reqs: []h.Req{get("b", "x"), get("x"), get("d", "x")}}
+	}},
+	{name: "route", untouched: []int{0}, servers: [][]int{{0, 1}}, mutators: [][]int{{0}}, world: func(jsr bool) *c12World {
 		c := c12Container(jsr)
 		a := newWS("/a", true, "/x")
 		c.Add(a)
 		c.Add(newWS("/b", true, "/x"))
 		return &c12World{c: c, muts: []func(){func() { a.Route(a.GET("/y").To(routeTo("/a/y"))) }}, reqs: []h.Req{get("a", "x"), get("a", "y")}}
 	}},
-	{name: "unroute", servers: [][]int{{0, 1}}, mutators: [][]int{{0}}, world: func(jsr bool) *c12World {
+	{name: "unroute", untouched: []int{0}, servers: [][]int{{0, 1}}, mutators: [][]int{{0}}, world: func(jsr bool) *c12World {
 		c := c12Container(jsr)
 		a := newWS("/a", true, "/w", "/y", "/x")
 		c.Add(a)
@@ -94,7 +107,7 @@ var c12Specs = []c12Spec{
 		b := newWS("/b", true, "/x")
 		return &c12World{c: c, muts: []func(){func() { c.Add(b) }}, reqs: []h.Req{get("a", "boom"), get("a", "x")}}
 	}},
-	{name: "churn", servers: [][]int{{0}, {1}}, mutators: [][]int{{0, 1}}, world: func(jsr bool) *c12World {
+	{name: "churn", untouched: []int{0}, servers: [][]int{{0}, {1}}, mutators: [][]int{{0, 1}}, world: func(jsr bool) *c12World {
 		c := c12Container(jsr)
 		c.Add(newWS("/a", true, "/x"))
 		b := newWS("/b", true, "/x")
@@ -108,7 +121,7 @@ var c12Specs = []c12Spec{
 		c.Add(b)
 		return &c12World{c: c, muts: []func(){func() { a.Route(a.GET("/y").To(routeTo("/a/y"))) }, func() { c.Remove(b) }}, reqs: []h.Req{get("a", "y"), get("b", "x")}}
 	}},
-	{name: "two-removes", servers: [][]int{{0}}, mutators: [][]int{{0}, {1}}, world: func(jsr bool) *c12World {
+	{name: "two-removes", untouched: []int{0}, servers: [][]int{{0}}, mutators: [][]int{{0}, {1}}, world: func(jsr bool) *c12World {
 		c := c12Container(jsr)
 		c.Add(newWS("/a", true, "/x"))
 		b := newWS("/b", true, "/x")
